@@ -91,6 +91,8 @@ func runC05(c *Ctx) {
 	if !c.must(p, "compress.(*Reader).readBlock / Read, (*Writer).Compress", rb != nil && rd != nil && wr != nil) {
 		return
 	}
+	ruleFreshOutput(c, p, "C05.fresh-output")
+	ruleHeaderFieldsIndependent(c, p, "C05.fields-independent")
 	succ := func(fn *ssa.Function) func(ssa.Instruction) bool {
 		return func(in ssa.Instruction) bool {
 			r, ok := in.(*ssa.Return)
@@ -1505,4 +1507,117 @@ func ruleErrChain(c *Ctx, p *core.Program, rule string) {
 		}
 	}
 	c.R.Count("Errorf calls that are handed an error value["+cfg+"]", n)
+}
+
+// ruleFreshOutput (C05): every successful Compress rebuilds the output frame.
+func ruleFreshOutput(c *Ctx, p *core.Program, rule string) {
+	c.R.Rule(rule, "no success exit of compress.Writer.Compress is reachable from its entry without a store to Writer.Data: the caller appends Data to the connection after every call, so a shortcut that returns nil and leaves Data alone (nothing to compress) re-sends the previous payload's complete, checksum-correct frame in place of the empty one")
+	cfg := p.Cfg.Name
+	fn := p.Method(core.PkgCompress, "Writer", "Compress")
+	if !c.must(p, "compress.Writer.Compress", fn != nil) {
+		return
+	}
+	key := core.FuncName(fn)
+	w := core.ReachAvoiding(core.Entry(fn), func(in ssa.Instruction) bool {
+		r, ok := in.(*ssa.Return)
+		return ok && defaultSuccess(fn, r)
+	}, func(in ssa.Instruction) bool {
+		st, ok := in.(*ssa.Store)
+		if !ok {
+			return false
+		}
+		fa, ok := st.Addr.(*ssa.FieldAddr)
+		return ok && fieldNameOnly(fa.X.Type(), fa.Field) == "Data"
+	}, nil)
+	if len(w) > 0 {
+		c.R.Bad(rule, key, cfg, p.Pos(w[0].At.Pos()), "Compress can return nil without having written Writer.Data: the caller sends whatever frame the previous call left there", p.TrailString(w[0])...)
+	} else {
+		c.R.Ok(rule, key, cfg, p.Pos(fn.Pos()), "every success exit lies behind a store to Data")
+	}
+}
+
+// ruleHeaderFieldsIndependent (C05): the frame reader assumes no ratio between the two announced sizes.
+func ruleHeaderFieldsIndependent(c *Ctx, p *core.Program, rule string) {
+	c.R.Rule(rule, "compress.Reader.readBlock rejects a frame on a comparison of two different header fields with each other (data size against raw size) only inside the branch of one compression method: the codecs share no expansion bound - 255:1 is LZ4's, a ZSTD frame of constant data exceeds it a hundredfold - so a plausibility test in front of the method switch refuses valid, checksum-correct frames of another codec")
+	cfg := p.Cfg.Name
+	fn := p.Method(core.PkgCompress, "Reader", "readBlock")
+	if !c.must(p, "compress.Reader.readBlock", fn != nil) {
+		return
+	}
+	roots := func(v ssa.Value) map[ssa.Value]bool {
+		out := map[ssa.Value]bool{}
+		core.DependsOn(v, func(x ssa.Value) bool {
+			if isWireRead(x) {
+				out[x] = true
+			}
+			return false
+		}, false)
+		return out
+	}
+	isMethodTest := func(ifi *ssa.If) bool {
+		return core.DependsOn(ifi.Cond, func(x ssa.Value) bool {
+			if cl, ok := x.(*ssa.Call); ok {
+				if f := core.CalleeFunc(cl); f != nil && strings.Contains(strings.ToLower(f.Name()), "method") {
+					return true
+				}
+			}
+			if u, ok := x.(*ssa.UnOp); ok && u.Op == token.MUL {
+				if ia, ok := u.X.(*ssa.IndexAddr); ok {
+					if k, isC := core.ConstInt(ia.Index); isC && k == 16 && core.FieldOrigin(ia.X, 0) == "Reader.header" {
+						return true
+					}
+				}
+			}
+			return false
+		}, true)
+	}
+	var methodBlocks []*ssa.BasicBlock
+	for _, b := range fn.Blocks {
+		if ifi, ok := b.Instrs[len(b.Instrs)-1].(*ssa.If); ok && isMethodTest(ifi) {
+			methodBlocks = append(methodBlocks, b)
+		}
+	}
+	n := 0
+	bad := false
+	for _, b := range fn.Blocks {
+		ifi, ok := b.Instrs[len(b.Instrs)-1].(*ssa.If)
+		if !ok {
+			continue
+		}
+		bo, ok := ifi.Cond.(*ssa.BinOp)
+		if !ok {
+			continue
+		}
+		rx, ry := roots(bo.X), roots(bo.Y)
+		if len(rx) == 0 || len(ry) == 0 {
+			continue
+		}
+		disjoint := true
+		for r := range rx {
+			if ry[r] {
+				disjoint = false
+			}
+		}
+		if !disjoint {
+			continue
+		}
+		// the stored checksum against the computed one is not a relation between header fields
+		if _, isInt := bo.X.Type().Underlying().(*types.Basic); !isInt {
+			continue
+		}
+		n++
+		inMethod := false
+		for _, mb := range methodBlocks {
+			if mb != b && mb.Dominates(b) {
+				inMethod = true
+			}
+		}
+		if !inMethod {
+			bad = true
+			c.R.Bad(rule, core.FuncName(fn)+sprintf("/relation#%d", n), cfg, p.Pos(ifi.Cond.Pos()), "two header fields are compared with each other in front of the method switch: a bound that holds for one codec rejects valid frames of another")
+		}
+	}
+	if !bad {
+		c.R.Ok(rule, core.FuncName(fn), cfg, p.Pos(fn.Pos()), sprintf("%d comparisons between header fields, none outside a method branch", n))
+	}
 }
